@@ -489,8 +489,8 @@ def pseudo_symbol_factory(seb: C.SemanticElementBuilder) -> diagram.Box:
     symbols.
     """
     style = next(seb.diag_element.iterchildren("ownedStyle"))
-    style.attrib["workspacePath"] = ""
-    box = generic_factory(seb)
+    with C.temporary_attribute(style, "workspacePath", ""):
+        box = generic_factory(seb)
     box.JSON_TYPE = "box_symbol"
     return box
 
